@@ -1,6 +1,9 @@
 import Dmn.Model.Sexp
 import Dmn.Model.LalrDriver
 import Dmn.Model.TemporalMachine
+import Dmn.Model.StringIndex
+import Dmn.Model.ScopeCell
+import Dmn.Model.LongestName
 
 /-!
 Driver handler for C05 (parser side):
@@ -18,6 +21,21 @@ Driver handler for C05 (parser side):
   `dtdMinutes a`, `dtdSeconds a`, `dtdPrint a`, `time4Offset a`, `ymLit y m neg`,
   `dtLit d h m s f neg` (a component is an integer or `none`), `dateYm y1 m1 d1 y2 m2 d2`,
   `dateWeekday y m d`.  Answer: `(ok null)`, `(ok (int n))`, `(ok (s c…))` or `(panic site)`.
+* `(c05 strindex <checked|wrapping> <op> <operand>…)` — the machine-integer / byte index model of the
+  string built-ins (`Dmn.StringIndex.run`); strings are `(s cp…)`:
+  `substring str start len` (`start`: an `isize` or `none`; `len`: `toEnd`, `below1`, `other`, `none`
+  or a `usize`), `before str match`, `after str match`, `split str delimiter`,
+  `replace str pattern replacement` (the answer is trimmed, as `core::replace` does),
+  `splitAt str ((start end)…)`, `replaceAt str ((start end)…) (replacement…)`.
+  Answer: `(ok null)`, `(ok (s cp…))`, `(ok (list (s cp…)…))` or `(panic site)`.
+* `(c05 longestname (s cp…))` — `parse_longest_name` (`Dmn.LongestName`): `(name (s cp…))` when the tokens of the
+  text are one `Name` and the end, `(other <result of the driver loop on the lexer's answers>)` otherwise.
+* `(c05 scopeops <new|default> (op…))` — the model of `Scope` (`Dmn.ScopeCell.execTrace`) from `Scope::new()`
+  (no context) or `Scope::default()` (one empty context).  `op`: `(push CTX)`, `(pop)`, `(peek)`, `(get NAME)`,
+  `(deep NAME…)`, `(set NAME VAL)`, `(null NAME)`, `(keys)`; `NAME` = `(s cp…)`; `VAL` = `(num n)`, `(str (s cp…))`,
+  `null`, `other`, `(ctx (NAME VAL)…)`, `(list VAL…)`; `CTX` = `(ctx (NAME VAL)…)`.  Answer: one item per
+  operation — `unit`, `(ctx none)`, `(ctx CTX)`, `(val none)`, `(val VAL)`, `(keys NAME…)` — and `panic` where the
+  model stops.
 -/
 
 namespace Dmn.Driver.C05
@@ -110,12 +128,140 @@ def temporalRes : Outcome TemporalMachine.Res → String
   | .panic site => s!"(panic {site})"
   | .diverge => "(diverge)"
 
+/-! ### strindex -/
+
+def nats? : Sexp → Option (List Nat)
+  | .list (.atom "s" :: cs) => cs.mapM Sexp.nat?
+  | _ => none
+
+def match? : Sexp → Option StringIndex.Match
+  | .list [a, b] =>
+    match Sexp.nat? a, Sexp.nat? b with
+    | some a, some b => some (a, b)
+    | _, _ => none
+  | _ => none
+
+def lenArg? : Sexp → Option StringIndex.LenArg
+  | .atom "toEnd" => some .toEnd
+  | .atom "below1" => some .below1
+  | .atom "other" => some .other
+  | .atom "none" => some (.count none)
+  | x => (Sexp.int? x).map fun c => .count (some c)
+
+def strOp (name : String) (xs : List Sexp) : Option StringIndex.Op :=
+  match name, xs with
+  | "substring", [s, st, len] =>
+    match nats? s, optInt? st, lenArg? len with
+    | some s, some st, some len => some (.substring s st len)
+    | _, _, _ => none
+  | "before", [s, p] => (nats? s).bind fun s => (nats? p).map fun p => .before s p
+  | "after", [s, p] => (nats? s).bind fun s => (nats? p).map fun p => .after s p
+  | "split", [s, p] => (nats? s).bind fun s => (nats? p).map fun p => .split s p
+  | "replace", [s, p, r] =>
+    (nats? s).bind fun s => (nats? p).bind fun p => (nats? r).map fun r => .replace s p r
+  | "splitAt", [s, .list ms] => (nats? s).bind fun s => (ms.mapM match?).map fun ms => .splitAt s ms
+  | "replaceAt", [s, .list ms, .list rs] =>
+    (nats? s).bind fun s => (ms.mapM match?).bind fun ms => (rs.mapM nats?).map fun rs =>
+      .replaceAt s ms (rs.map StringIndex.bytes)
+  | _, _ => none
+
+def cpStr (cs : List Nat) : String := "(s" ++ String.join (cs.map fun c => " " ++ toString c) ++ ")"
+
+/-- `trim`: `core::replace` trims what `replace_all` returns (`core.rs:860`) -/
+def strRes (trim : Bool) : Outcome StringIndex.Res → String
+  | .ok .null => "(ok null)"
+  | .ok (.chars cs) => "(ok " ++ cpStr cs ++ ")"
+  | .ok (.utf8 bs) =>
+    let cs := StringIndex.decodeAll bs
+    "(ok " ++ cpStr (if trim then StringIndex.trimN cs else cs) ++ ")"
+  | .ok (.pieces ps) => "(ok (list" ++ String.join (ps.map fun p => " " ++ cpStr (StringIndex.decodeAll p)) ++ "))"
+  | .panic site => s!"(panic {site})"
+  | .diverge => "(diverge)"
+
+/-! ### scopeops -/
+
+mutual
+  partial def scVal? : Sexp → Option ScopeCell.Val
+    | .atom "null" => some .null
+    | .atom "other" => some .other
+    | .list [.atom "num", n] => (Sexp.int? n).map .num
+    | .list [.atom "str", t] => (Sexp.str? t).map .str
+    | .list (.atom "ctx" :: es) => (es.mapM scEntry?).map .ctx
+    | .list (.atom "list" :: vs) => (vs.mapM scVal?).map .list
+    | _ => none
+  partial def scEntry? : Sexp → Option (String × ScopeCell.Val)
+    | .list [k, v] =>
+      match Sexp.str? k, scVal? v with
+      | some k, some v => some (k, v)
+      | _, _ => none
+    | _ => none
+end
+
+def scCtx? (x : Sexp) : Option ScopeCell.Ctx :=
+  match scVal? x with
+  | some (.ctx es) => some es
+  | _ => none
+
+def scOp? : Sexp → Option ScopeCell.Op
+  | .list [.atom "push", c] => (scCtx? c).map .push
+  | .list [.atom "pop"] => some .pop
+  | .list [.atom "peek"] => some .peek
+  | .list [.atom "get", k] => (Sexp.str? k).map .getEntry
+  | .list (.atom "deep" :: ks) => (ks.mapM Sexp.str?).map .searchDeep
+  | .list [.atom "set", k, v] =>
+    match Sexp.str? k, scVal? v with
+    | some k, some v => some (.setEntry k v)
+    | _, _ => none
+  | .list [.atom "null", k] => (Sexp.str? k).map .insertNull
+  | .list [.atom "keys"] => some .flattenKeys
+  | _ => none
+
+def nameStr (k : String) : String := Sexp.toStr (Sexp.ofStr k)
+
+partial def scValStr : ScopeCell.Val → String
+  | .num n => s!"(num {n})"
+  | .other => "other"
+  | .null => "null"
+  | .str t => "(str " ++ nameStr t ++ ")"
+  | .ctx es => "(ctx" ++ String.join (es.map fun e => " (" ++ nameStr e.1 ++ " " ++ scValStr e.2 ++ ")") ++ ")"
+  | .list vs => "(list" ++ String.join (vs.map fun v => " " ++ scValStr v) ++ ")"
+
+def scAnsStr : Option ScopeCell.Ans → String
+  | none => "panic"
+  | some .unit => "unit"
+  | some (.ctx none) => "(ctx none)"
+  | some (.ctx (some c)) => "(ctx " ++ scValStr (.ctx c) ++ ")"
+  | some (.val none) => "(val none)"
+  | some (.val (some v)) => "(val " ++ scValStr v ++ ")"
+  | some (.keys ks) => "(keys" ++ String.join (ks.map fun k => " " ++ nameStr k) ++ ")"
+
 def handle (args : List Sexp) : String :=
   match args with
   | .atom "temporal" :: .atom mode :: .atom name :: xs =>
     let m : Option IntMode := if mode = "checked" then some .checked else if mode = "wrapping" then some .wrapping else none
     match m, temporalOp name xs with
     | some m, some op => temporalRes (TemporalMachine.run m op)
+    | _, _ => "(error bad-args)"
+  | .atom "strindex" :: .atom mode :: .atom name :: xs =>
+    let m : Option IntMode := if mode = "checked" then some .checked else if mode = "wrapping" then some .wrapping else none
+    match m, strOp name xs with
+    | some m, some op => strRes (name == "replace" || name == "replaceAt") (StringIndex.run m op)
+    | _, _ => "(error bad-args)"
+  | [.atom "longestname", text] =>
+    match nats? text with
+    | some input =>
+      match LongestName.loneName input with
+      | some n => "(name " ++ cpStr n ++ ")"
+      | none =>
+        match LongestName.parseLongestName (fun _ _ => true) (fun _ => none) (input.length + 4) (16 * input.length + 64) input with
+        | .parsed r => "(other " ++ resStr r ++ ")"
+        | .lexerPanic => "(other panic:lexer)"
+    | none => "(error bad-args)"
+  | [.atom "scopeops", .atom init, .list ops] =>
+    let start : Option ScopeCell.Cell :=
+      if init = "new" then some { contexts := [] } else if init = "default" then some { contexts := [[]] } else none
+    match start, ops.mapM scOp? with
+    | some c, some ops => "(" ++ " ".intercalate ((ScopeCell.execTrace c ops).1.map scAnsStr) ++ ")"
     | _, _ => "(error bad-args)"
   | [.atom "drive", .list toks, failAt, fuel] =>
     match toks.mapM tokOf, Sexp.int? failAt, Sexp.nat? fuel with
